@@ -16,7 +16,7 @@ CLAUSES = [
  ("oracle", "TABLESPACE ts1"), ("oracle", "STORAGE (INITIAL 1 NEXT 2)"), ("oracle", "ORGANIZATION INDEX"),
  ("redshift", "DISTSTYLE KEY"), ("redshift", "DISTKEY (a)"), ("redshift", 'DISTKEY ("a")'),
  ("snowflake", "CLUSTER BY (a)"), ("snowflake", "COMMENT = 'c'"), ("snowflake", "DATA_RETENTION_TIME_IN_DAYS = 3"),
- ("snowflake", "CHANGE_TRACKING = TRUE"), ("snowflake", "WITH TAG (k = 'v')"),
+ ("snowflake", "CHANGE_TRACKING = TRUE"), ("snowflake", "WITH TAG (k = 'v')"), ("snowflake", "WITH TAG (a='1', b='2', c='3')"),
  ("snowflake", "COMMENT=\"it's ok\""), ("snowflake", "DATA_RETENTION_TIME_IN_DAYS=3"), ("snowflake", "CHANGE_TRACKING=TRUE"),
  ("mysql", "COMMENT=\"o'k\""),
  ("mssql", "ON [PRIMARY]"), ("mssql", "TEXTIMAGE_ON [FG2]"), ("mssql", "WITH (PAD_INDEX = OFF)"),
